@@ -561,7 +561,7 @@ theorem gro_load_one (ls : List Str) (path : Nat) (fs : FS) :
 
 example : (Rd.Xyz.read Gen.Layouts.tables
     [['2','\n'], ['t','\n'], ['H',' ','0',' ','0',' ','0','\n'], ['h',' ','0',' ','0',' ','1','\n']]).res
-    = .ok { atnums := some [2], atcoords := some [2, 3] } := by decide +kernel
+    = .ok { atnums := some [2], atcoords := some [2, 3], hasTitle := true } := by decide +kernel
 example : (Rd.Xyz.read Gen.Layouts.tables [['2','\n'], ['t','\n'], ['H',' ','0',' ','0',' ','0','\n']])
     = ⟨.error .stopIter, 4⟩ := by decide +kernel
 example : (Rd.Xyz.read Gen.Layouts.tables [['2','\n'], ['t','\n'], ['Q',' ','0',' ','0',' ','0','\n']])
